@@ -65,6 +65,8 @@ Proof.
   - (* TB32 *) now rewrite (word_at_mid pre post pos n Hpos Hwt).
   - (* TU32 *) assert (Hn : n < two256) by (pose proof max_u32_lt; lia).
     rewrite (word_at_mid pre post pos n Hpos Hn). apply N.leb_le in Hwt. now rewrite Hwt.
+  - (* TU8 *) assert (Hn : n < two256) by (assert (255 < two256) by (vm_compute; reflexivity); lia).
+    rewrite (word_at_mid pre post pos n Hpos Hn). apply N.leb_le in Hwt. now rewrite Hwt.
   - (* TAddr *) assert (Hn : n < two256) by (pose proof two160_lt; lia).
     rewrite (word_at_mid pre post pos n Hpos Hn). now rewrite N.mod_small.
 Qed.
@@ -266,4 +268,89 @@ Proof.
   destruct (details_are_of_found_call bytes b_selector b_unpack hash2 root bridge cl c cl' Hrun) as (g & m & d & s' & Hd & Hrec & _ & _).
   rewrite Hinp, (decode_encoded_pre s p0 idx mer rer onet oaddr dnet daddr amount md Hs H0 Hi Hmer Hrer Hon Hoa Hdn Hda Ham Hmd) in Hd.
   injection Hd as <- <- Hg <-. split; [exact Hg | exact Hrec].
+Qed.
+
+(* ================= event logs: a dynamic `bytes` between static arguments ================= *)
+Lemma unpack_one_bytes_mid : forall head mid md pos, length head = pos ->
+  N.of_nat (pos + 32 + length mid) < two256 -> N.of_nat (length md) < two256 ->
+  unpack_one TBytes pos (head ++ be 32 (N.of_nat (pos + 32 + length mid)) ++ mid ++ be 32 (N.of_nat (length md)) ++ md ++ repeat 0 (pad32 (length md)))
+  = Some (VBytes md).
+Proof.
+  intros head mid md pos Hpos Hoff Hmd. unfold unpack_one.
+  set (pad := repeat 0 (pad32 (length md))).
+  set (off := (pos + 32 + length mid)%nat) in *.
+  set (data := head ++ be 32 (N.of_nat off) ++ mid ++ be 32 (N.of_nat (length md)) ++ md ++ pad).
+  assert (Hlen : length data = (off + 32 + length md + length pad)%nat).
+  { unfold data, off. rewrite !app_length, !be_length, Hpos. lia. }
+  assert (Hb : Nat.leb (pos + 32) (length data) = true) by (apply Nat.leb_le; unfold off in Hlen; lia).
+  rewrite Hb.
+  assert (Hw : word_at data pos = N.of_nat off) by (unfold data; now apply word_at_mid).
+  rewrite Hw.
+  assert (Hb2 : (N.of_nat off + 32 <=? N.of_nat (length data)) = true) by (apply N.leb_le; lia).
+  rewrite Hb2.
+  assert (Hk : (N.to_nat (N.of_nat off + 32) - 32 = off)%nat) by lia.
+  rewrite Hk.
+  assert (Hw2 : word_at data off = N.of_nat (length md)).
+  { unfold data. replace (head ++ be 32 (N.of_nat off) ++ mid ++ be 32 (N.of_nat (length md)) ++ md ++ pad)
+      with ((head ++ be 32 (N.of_nat off) ++ mid) ++ be 32 (N.of_nat (length md)) ++ md ++ pad) by (now rewrite <- !app_assoc).
+    apply word_at_mid; [unfold off; rewrite !app_length, be_length, Hpos; lia | exact Hmd]. }
+  rewrite Hw2.
+  assert (Hb3 : (N.of_nat off + 32 + N.of_nat (length md) <=? N.of_nat (length data)) = true) by (apply N.leb_le; lia).
+  rewrite Hb3. f_equal. f_equal.
+  assert (Hk2 : N.to_nat (N.of_nat off + 32) = (off + 32)%nat) by lia.
+  rewrite Hk2, Nat2N.id. unfold data.
+  replace (head ++ be 32 (N.of_nat off) ++ mid ++ be 32 (N.of_nat (length md)) ++ md ++ pad)
+    with ((head ++ be 32 (N.of_nat off) ++ mid ++ be 32 (N.of_nat (length md))) ++ md ++ pad)
+    by (now rewrite <- !app_assoc).
+  rewrite skipn_app_len by (unfold off; rewrite !app_length, !be_length, Hpos; lia).
+  now apply firstn_app_len.
+Qed.
+
+Theorem abi_roundtrip_mid : forall ts1 ts2 s1 s2 md, Forall2 wt ts1 s1 -> Forall2 wt ts2 s2 ->
+  N.of_nat (widths ts1 + 32 + widths ts2) < two256 -> N.of_nat (length md) < two256 ->
+  abi_unpack (ts1 ++ TBytes :: ts2) (abi_pack_mid s1 md s2) = Some (s1 ++ VBytes md :: s2).
+Proof.
+  intros ts1 ts2 s1 s2 md H1 H2 Hoff Hmd.
+  pose proof (statics_length ts1 s1 H1) as L1. pose proof (statics_length ts2 s2 H2) as L2.
+  unfold abi_unpack. destruct (abi_pack_mid s1 md s2) as [|b0 rest] eqn:E.
+  { exfalso. apply (f_equal (@length N)) in E. unfold abi_pack_mid in E. rewrite !app_length, !be_length in E. cbn in E. lia. }
+  rewrite <- E. unfold abi_pack_mid.
+  set (h1 := concat (map enc_static s1)) in *. set (h2 := concat (map enc_static s2)) in *.
+  set (tl := be 32 (N.of_nat (length md)) ++ md ++ repeat 0 (pad32 (length md))).
+  change (unpack_args (ts1 ++ TBytes :: ts2) 0 ([] ++ h1 ++ (be 32 (N.of_nat (length h1 + 32 + length h2)) ++ h2 ++ tl)) = Some (s1 ++ VBytes md :: s2)).
+  unfold h1 at 1. rewrite (unpack_args_statics ts1 s1 H1 (TBytes :: ts2) [] _ 0%nat eq_refl).
+  fold h1. cbn [app Nat.add unpack_args].
+  rewrite <- L1. unfold tl.
+  rewrite (unpack_one_bytes_mid h1 h2 md (length h1) eq_refl) by (rewrite ?L1, ?L2; assumption).
+  fold tl.
+  cbn [width].
+  replace (h1 ++ be 32 (N.of_nat (length h1 + 32 + length h2)) ++ h2 ++ tl)
+    with ((h1 ++ be 32 (N.of_nat (length h1 + 32 + length h2))) ++ concat (map enc_static s2) ++ tl) by (unfold h2; now rewrite <- !app_assoc).
+  rewrite <- (app_nil_r ts2) at 1.
+  rewrite (unpack_args_statics ts2 s2 H2 [] (h1 ++ be 32 (N.of_nat (length h1 + 32 + length h2))) tl (length h1 + 32)%nat)
+    by (rewrite app_length, be_length; reflexivity).
+  cbn [unpack_args]. rewrite app_nil_r. reflexivity.
+Qed.
+
+Theorem bridge_event_roundtrip : forall f, bridge_fields_ok f -> decode_bridge_event (encode_bridge_event f) = Some f.
+Proof.
+  intros [lt onet oaddr dnet daddr amount md dc] (H1 & H2 & H3 & H4 & H5 & H6 & H7 & H8). cbn [bf_lt bf_onet bf_oaddr bf_dnet bf_daddr bf_amount bf_meta bf_dc] in *.
+  unfold decode_bridge_event, encode_bridge_event. cbn [bf_lt bf_onet bf_oaddr bf_dnet bf_daddr bf_amount bf_meta bf_dc].
+  change bridge_event_tys with ([TU8; TU32; TAddr; TU32; TAddr; TU256] ++ TBytes :: [TU32]).
+  rewrite abi_roundtrip_mid; [reflexivity | | | vm_compute; reflexivity | exact H8].
+  - repeat (constructor; [assumption|]). constructor.
+  - repeat (constructor; [assumption|]). constructor.
+Qed.
+
+Theorem claim_event_roundtrip : forall f, claim_fields_ok f -> decode_claim_event (encode_claim_event f) = Some f.
+Proof.
+  intros [gi onet oaddr daddr amount] (H1 & H2 & H3 & H4 & H5). cbn [cf_gi cf_onet cf_oaddr cf_daddr cf_amount] in *.
+  unfold decode_claim_event, encode_claim_event, abi_unpack. cbn [cf_gi cf_onet cf_oaddr cf_daddr cf_amount].
+  set (vs := [VNum gi; VNum onet; VNum oaddr; VNum daddr; VNum amount]).
+  assert (Hwt : Forall2 wt claim_event_tys vs) by (repeat (constructor; [assumption|]); constructor).
+  destruct (concat (map enc_static vs)) as [|b0 rest] eqn:E.
+  { exfalso. apply (f_equal (@length N)) in E. rewrite (statics_length _ _ Hwt) in E. cbn in E. lia. }
+  rewrite <- E.
+  pose proof (unpack_args_statics claim_event_tys vs Hwt [] [] [] 0%nat eq_refl) as H.
+  rewrite !app_nil_r in H. cbn [app] in H. rewrite H. cbn [unpack_args]. rewrite app_nil_r. reflexivity.
 Qed.
